@@ -174,6 +174,10 @@ class Harness:
         self.env = env or {}
         self.fsm_log: list[tuple[float, str, str, str]] = []
         self.wire_log: list[dict] = []
+        # a write that blocks (the remote's TCP window is closed): set write_stall = seconds and the next UPDATE written by
+        # exabgp waits that long (virtual time) inside Connection.writer_async before going out; recorded in self.stalls
+        self.write_stall: float | None = None
+        self.stalls: list[tuple[float, float]] = []
         self.remotes: list[Remote] = []
         self.connect_policy = lambda harness, proto: True  # return False to fail the outgoing connect
         self.on_outgoing = None  # callback(remote) when exabgp connected out
@@ -279,6 +283,10 @@ class Harness:
                 {'t': harness.loop.time(), 'conn': id(self_), 'direction': self_.direction, 'fsm': peer.fsm.name() if peer else None, 'peer': harness._peer_key(peer) if peer else None, 'data': bytes(data)}
             )
             harness.loop.note_activity()
+            if harness.write_stall and bytes(data[18:19]) == b'\x02':
+                delay, harness.write_stall = harness.write_stall, None
+                harness.stalls.append((harness.loop.time(), delay))
+                await asyncio.sleep(delay)
             return await real_writer(self_, data)
 
         self._patch(Connection, 'writer_async', writer_async)
